@@ -147,6 +147,34 @@ def gen_tiny_stats(rng, n, kinds):
     return progs
 
 
+def gen_rel_constants(rng, n):
+    """every relation between a stepped function and a constant given as a step-free Stairs OBJECT (either side, either
+    closed side), the constant being a value the function actually takes: `c R g` is not routed through Python's
+    reflection, so the library has a branch of its own for it"""
+    progs = []
+    for i in range(n):
+        b = Builder(pick_domain(rng))
+        cl = rng.choice("LR")
+        g = pick_spec(rng, cl, small_p=0.4, nanp=0.2, stepfree_p=0.0)
+        while not g.rows:
+            g = pick_spec(rng, cl, small_p=0.4, nanp=0.2, stepfree_p=0.0)
+        G = b.emit_any(g, rng)
+        own = [v for _, v in g.rows if v is not None] + ([g.init] if g.init is not None else [])
+        c0 = rng.choice(own or [Fraction(1)])
+        C = b.reg("c")
+        b.add(f"new {C} {rng.choice('LR')} {vs(c0)}")
+        op = BINOPS_REL[i % len(BINOPS_REL)]
+        for (x, y) in ((C, G), (G, C)):
+            h = b.reg("h")
+            b.add(f"bin {h} {op} {x} {y}" + opt_suffix(["form=" + rng.choice(["dunder", "method"])]), focus=True)
+            b.add(f"frame {h}", focus=True)
+            xs = " ".join(fs(q) for q in b.critical())
+            b.add(f"sample {h} {xs}", focus=True)
+        b.tags.update(kind="relconst", op=op)
+        progs.append(b.program())
+    return progs
+
+
 def gen_decimal_block(rng, n):
     """relational operators on functions built from non-dyadic decimal values (0.1, 0.3, 0.7 ...) straight from
     `from_values`: the stored values are the floats the user passed, so comparisons with those same numbers are exact,
@@ -318,7 +346,7 @@ def gen_c02(rng, tier, n_random, n_exh):
 def gen_c03(rng, n):
     progs = []
     for _ in range(n):
-        b = Builder(pick_domain(rng, main_only=False))
+        b = Builder(pick_domain(rng, main_only=False) if rng.random() < 0.9 else "dtns")
         f = pick_spec(rng, quarter=rng.random() < 0.3)
         r = b.emit_any(f, rng)
         u0 = rng.random()
@@ -479,8 +507,33 @@ def bound_choice(rng, b, allow_none=True):
     return x
 
 
-def gen_c06(rng, n):
+def gen_null_pair(rng, n):
+    """isna and notna of the SAME object, in either order, together: they are complementary indicators"""
     progs = []
+    for _ in range(n):
+        b = Builder(pick_domain(rng))
+        f = pick_spec(rng, nanp=0.4, stepfree_p=0.1)
+        A = b.emit_any(f, rng)
+        first, second = rng.sample(["isna", "notna"], 2)
+        h1, h2, s0 = b.reg("h"), b.reg("h"), b.reg("s")
+        b.add(f"un {h1} {first} {A}", focus=True)
+        b.add(f"un {h2} {second} {A}", focus=True)
+        b.add(f"frame {h1}", focus=True)
+        b.add(f"frame {h2}", focus=True)
+        b.add(f"bin {s0} add {h1} {h2}", focus=True)
+        b.add(f"frame {s0}", focus=True)
+        if rng.random() < 0.5:
+            b.add(f"layer {A} {fs(rng.choice([None, 1, 2]))} {fs(rng.choice([None, 5, 7]))} 1")
+            h3 = b.reg("h")
+            b.add(f"un {h3} {first} {A}", focus=True)
+            b.add(f"frame {h3}", focus=True)
+        b.tags.update(kind="nullpair")
+        progs.append(b.program())
+    return progs
+
+
+def gen_c06(rng, n):
+    progs = gen_null_pair(rng, max(12, n // 40))
     for _ in range(n):
         dom = pick_domain(rng)
         b = Builder(dom)
@@ -693,6 +746,18 @@ def gen_c08(rng, n):
                 if rng.random() < 0.2:
                     opts.append("aggform=list")
                 b.add(f"stat {a} {name} {fs(lo)} {fs(hi)} default" + opt_suffix(opts), focus=True)
+        # describe(): mean / std / min / max (+ percentiles away from share boundaries) over a window, half-bounded ones
+        # included (a half-bounded window is a window, not the whole line)
+        for (lo, hi) in rng.sample([(None, Fraction(rng.choice([3, 5, 6]))), (Fraction(rng.choice([2, 4])), None),
+                                    (Fraction(1), Fraction(7)), (None, None)], 2):
+            wp = spec_pieces(f, lo, hi)
+            if not wp:
+                continue
+            wtot, wb = cum_boundaries(wp)
+            okp = [p for p in (25, 50, 75, 10, 90) if is_pow2(wtot) or all(Fraction(p) != c * 100 for c in wb)]
+            if okp:
+                b.note_points([x for x in (lo, hi) if x is not None])
+                b.add(f"describe {a} {fs(lo)} {fs(hi)} " + " ".join(str(p) for p in okp) + " ;; percs=explicit", focus=True)
         if rng.random() < 0.3:
             # query - mutate - query on the same object (the cached integral/mean pair must not survive)
             b.add(f"q {a} mean", focus=True)
@@ -1491,6 +1556,9 @@ def gen_c13_chain(rng, n):
                 b.add(f"layerv {victim} none:{fs(e)}:{v} ;; route={rng.choice(['list', 'ndarray', 'series'])}")
             for r in regs:
                 b.add(f"frame {r}", focus=True)
+            # the answers of an object are its own too (a shared distribution accessor would answer for the other one)
+            for r in (h, d):
+                b.add(f"q {r} {rng.choice(['median', 'var', 'perc 25', 'ecdf right 1'])}", focus=True)
         b.tags.update(kind="chain", op=kind, derived=kd)
         progs.append(b.program())
     return progs
@@ -1972,7 +2040,7 @@ def gen_c18(rng, n):
                 rng.shuffle(crit)
             xs = " ".join(fs(x) for x in crit)
             b.add(f"arraysample {rng.choice(['sample', 'sample', 'limitleft', 'limitright'])} {len(allm)} " + " ".join(allm) + " / " + xs +
-                  (" ;; top=1" if rng.random() < 0.4 else ""), focus=True)
+                  rng.choice(["", "", " ;; top=1", " ;; top=1", " ;; acc=reuse"]), focus=True)
             b.tags.update(kind="arraysample")
         progs.append(b.program())
     return progs
